@@ -22,13 +22,18 @@ IdKinds == {"node", "node_v", "edge", "site", "mutation", "individual", "populat
 \* entry points documented to accept Python-style negative indexes (-n .. -1 count from the end)
 PyIndexed == {"ts.node", "ts.edge", "ts.site", "ts.mutation", "ts.individual", "ts.population", "ts.migration", "ts.provenance", "ts.at_index", "tree.seek_index"}
 ListKinds == {"node_list", "site_list"}
-IdVals(n) == {-n - 1, -n, -2, -1, 0, n - 1, n, n + 1, HUGE}
+\* identifiers beyond 32 bits (TLC integers are 32 bit: tokens).  W32 + k stands for 2^32 + k and W64 + k for 2^64 + k: values that
+\* land on the valid identifier k when an argument parser truncates them to a C int.  They are out of range like any other huge value.
+W32 == 900100
+W64 == 900200
+Wraps(n) == {W32, W32 + 1, W64 + 1} \cup (IF n >= 1 THEN {W32 + (n - 1)} ELSE {})
+IdVals(n) == {-n - 1, -n, -2, -1, 0, n - 1, n, n + 1, HUGE} \cup Wraps(n)
 \* node_v: the virtual root (id = number of nodes) is a legal argument
 ValidId(kind, v, dims) == LET n == dims[DimOf(kind)] IN IF kind = "node_v" THEN 0 <= v /\ v <= n ELSE 0 <= v /\ v < n
 Vals(kind, dims) ==
   CASE kind \in IdKinds -> IdVals(dims[DimOf(kind)])
     [] kind \in ListKinds -> LET n == dims[DimOf(kind)] IN
-          {<<>>, <<0>>, <<n - 1>>, <<n>>, <<-1>>, <<-2>>, <<HUGE>>, <<0, 0>>, <<0, n>>, <<n + 1, 0>>}
+          {<<>>, <<0>>, <<n - 1>>, <<n>>, <<-1>>, <<-2>>, <<HUGE>>, <<0, 0>>, <<0, n>>, <<n + 1, 0>>, <<W32 + 1>>, <<0, W32>>, <<W64 + 1>>}
     [] kind = "position" -> {-1, 0, dims.L - 1, dims.L, dims.L + 1, NANV, INFV}
     [] kind = "time" -> {-1, 0, 1, NANV, INFV}
     [] kind = "windows" -> {<<0, dims.L>>, <<0, 1, dims.L>>, <<dims.L, 0>>, <<0, 0, dims.L>>, <<1, dims.L>>, <<0, dims.L + 1>>, <<>>, <<0>>, <<-1, dims.L>>, <<0, NANV, dims.L>>}
@@ -80,7 +85,7 @@ Entries ==
 DimNames == {"nodes", "edges", "sites", "mutations", "individuals", "populations", "migrations", "provenances", "trees", "samples"}
 AllN(dims) == {dims[d] : d \in DimNames}
 GenericIds(dims) == UNION {IdVals(n) : n \in AllN(dims)}
-GenericLists(dims) == {<<>>} \cup UNION {{<<0>>, <<n - 1>>, <<n>>, <<-1>>, <<-2>>, <<HUGE>>, <<0, 0>>, <<0, n>>, <<n + 1, 0>>, <<n - 1, 0>>} : n \in AllN(dims)}
+GenericLists(dims) == {<<>>} \cup UNION {{<<0>>, <<n - 1>>, <<n>>, <<-1>>, <<-2>>, <<HUGE>>, <<0, 0>>, <<0, n>>, <<n + 1, 0>>, <<n - 1, 0>>, <<W32 + 1>>, <<0, W32>>} : n \in AllN(dims)}
 Lengths(dims) == {v \in {0, 1} \cup UNION {{n - 1, n, n + 1} : n \in AllN(dims)} : v >= 0}
 IndexTuples == {<<>>, <<0>>, <<0, 0>>, <<0, 1>>, <<-1, 0>>, <<2, 0>>, <<HUGE, 0>>, <<0, 1, 0>>, <<0, 1, 2>>, <<0, 0, 1, 1>>, <<0, 1, 2, HUGE>>, <<0, 1, 0, -2>>}
 AutoVals(kind, dims) ==
